@@ -15,30 +15,48 @@ open XmppModel XmppModel.Xml XmppModel.Encoder
 
 /-! ### Tie to the source: lock discipline of every function that touches the output encoder -/
 
-/-- every function of the package that mentions `….out.e`, with how it is protected:
-`locked` = first statement `s.out.Lock()`, second `defer s.out.Unlock()`; `probe` = only
-inspects the encoder's state through a type assertion (its callers are locked, see
-`C05_gen_all_locked`); `holder` = a method
-of `lockWriteCloser`, which only `TokenWriter` creates; `setup` = `negotiateSession` / `writeStreamFeatures`
-(stream negotiation: no other goroutine has the session yet) -/
-def expectedFns : List (String × String) :=
-  [("Encode", "locked"), ("EncodeElement", "locked"), ("lockWriteCloser.EncodeToken", "holder"),
-   ("lockWriteCloser.Flush", "holder"), ("negotiateSession", "setup"), ("outputBroken", "probe"), ("send", "locked"),
-   ("sendError", "locked"), ("writeStreamFeatures", "setup")]
+/-- how a mention of the output encoder may be protected (classes computed by the lock-flow
+analysis of `harness/c05/lockflow.go`, which finds the output side of `Session` by its type,
+follows calls into unexported helpers and does not depend on names of helpers, locals or
+unexported fields):
+`locked` = every mention comes after a top-level `X.out.Lock()` of the function's own body and
+before any non-deferred unlock; `held` = an unexported helper, *every* reference to which
+(call, method value) is made with the lock held — by a locked function, a holder method, or,
+recursively, a held helper; `probe` = as `held`, and the function only inspects the encoder's
+state through a type assertion; `holder` = a method of the type `TokenWriter` returns (made
+only with the lock held: `C05_gen_tokenwriter_holds_lock`); `setup` = `negotiateSession` /
+`writeStreamFeatures` (stream negotiation: no other goroutine has the session yet).
+Anything else is reported as `unlocked` / `unlocked-probe`. -/
+def protectedClass (c : String) : Bool :=
+  c == "locked" || c == "held" || c == "probe" || c == "holder" || c == "setup"
 
-theorem C05_gen_lock_discipline : Generated.C05.transmitFns = some expectedFns := by decide
+/-- the functions that may write while the stream is being negotiated -/
+def setupFns : List String := ["negotiateSession", "writeStreamFeatures"]
 
-/-- `TokenWriter` takes the output lock before it hands out the writer and the writer's `Close`
-releases it (deferred, so also when the final flush fails) -/
+/-- the exported one-shot entry points take the output lock themselves (or, `Send` /
+`SendElement`, delegate to a function that does: `C05_gen_broken_guard`), and the stream
+negotiation and the token writer's methods are the only other writers' classes -/
+theorem C05_gen_lock_discipline :
+    ∃ t, Generated.C05.transmitFns = some t ∧
+      ("Encode", "locked") ∈ t ∧ ("EncodeElement", "locked") ∈ t ∧
+      (∃ p ∈ t, p.2 = "holder") ∧
+      (∀ p ∈ t, p.2 = "setup" → p.1 ∈ setupFns) := by
+  refine ⟨_, rfl, by decide, by decide, by decide, by decide⟩
+
+/-- `TokenWriter` takes the output lock before it hands out the writer (and does not release
+it), values of the writer's type are made nowhere else without the lock, and the writer's
+`Close` releases it (deferred, so also when the final flush fails) -/
 theorem C05_gen_tokenwriter_holds_lock :
-    Generated.C05.tokenWriterLocks = some true ∧ Generated.C05.closeUnlocks = some true := by decide
+    Generated.C05.tokenWriterLocks = some true ∧ Generated.C05.closeUnlocks = some true ∧
+    Generated.C05.holderOnlyFromLocked = some true := by decide
 
-/-- no function writes to the encoder without the lock -/
+/-- no function touches the encoder — writes to it or reads its state — without the lock:
+every mention in the package is in a protected class (hypothesis `locks i = true` of
+`C05_atomic`, and what makes the answer of the broken-element probe stay valid until the
+element has been written) -/
 theorem C05_gen_all_locked :
-    ∃ t c, Generated.C05.transmitFns = some t ∧ Generated.C05.probeCallers = some c ∧
-      (∀ p ∈ t, p.2 = "locked" ∨ p.2 = "holder" ∨ p.2 = "setup" ∨ p.2 = "probe") ∧
-      (∀ p ∈ c, p.2 = "locked" ∨ p.2 = "holder") := by
-  refine ⟨_, _, C05_gen_lock_discipline, rfl, by decide, by decide⟩
+    ∃ t, Generated.C05.transmitFns = some t ∧ t ≠ [] ∧ ∀ p ∈ t, protectedClass p.2 = true := by
+  refine ⟨_, rfl, by decide, by decide⟩
 
 /-- the encoder's state can only change in `EncodeToken` (a `Flush` of its own, or any other
 method, could move the depth counter behind the model's back: `C05_flush_transparent` rests
@@ -46,9 +64,17 @@ on this) -/
 theorem C05_gen_encoder_methods : Generated.C05.stanzaEncoderMethods = some ["EncodeToken"] := by decide
 
 /-- every one-shot transmit entry point refuses to write when the previous write was abandoned
-inside an element (hypothesis `guard = true` of the fault theorems) -/
+inside an element (hypothesis `guard = true` of the fault theorems), and it finds that out
+UNDER the lock: in the function that takes the lock for the entry point the order is `Lock`,
+`defer Unlock`, a conditional early return that reaches the probe of the encoder's state
+(directly or through helpers), then the first write (`guardUnderLock` of
+`C05_guard_under_lock_refuses`; a probe in front of the `Lock` is the schedule of
+`C05_guard_before_lock_nests`).  The token writer's `EncodeToken` does the same before its
+first write. -/
 theorem C05_gen_broken_guard :
-    Generated.C05.brokenGuard = some [("Encode", true), ("EncodeElement", true), ("send", true)] := by decide
+    Generated.C05.entryGuard =
+      some [("Encode", true), ("EncodeElement", true), ("Send", true), ("SendElement", true)] ∧
+    Generated.C05.holderGuard = some true := by decide
 
 /-- `internal/marshal` keeps no state between calls: no package-level variable (a pooled or
 cached buffer shared between calls and sessions is how one call's content ends up in
